@@ -45,7 +45,7 @@ fn check_string(g: WallpaperGroups, gname: &str, k: usize) {
     assert!(t.is_ok());
     let m: Matrix3<f64> = t.unwrap().into();
     // bottom row as the crate's own parser leaves it (affine, no projective part)
-    assert!(m[(2, 0)] == 0. && m[(2, 1)] == 0.);
+    assert!(m[(2, 0)] == 0. && m[(2, 1)] == 0. && m[(2, 2)] == 0.);
     let mut found = ops.len();
     let mut j = 0;
     while j < ops.len() {
